@@ -58,6 +58,7 @@ func TestC12ClientRaces(t *testing.T) {
 func raceInsert(rt *rapid.T, scen string) {
 	comp := compModes[rapid.SampledFrom([]int{0, 2, 3}).Draw(rt, "compression")]
 	e := newEnv(54460)
+	e.warm = rapid.SampledFrom(warmKinds).Draw(rt, "earlier-exchange")
 	defer e.conn.ForceClose()
 	cols := drawInput(rt, "col", 2, 1)
 	rounds := rapid.IntRange(2, 5).Draw(rt, "rounds")
